@@ -148,7 +148,10 @@ func genC22(t *rapid.T, ctx *Ctx) interface{} {
 			f = 1.5
 		}
 		if rapid.IntRange(0, 3).Draw(t, "asbig") == 0 && f != 0 {
-			val = []ev.Event{{K: ev.BigFloat, BF: new(big.Float).SetFloat64(f)}}
+			// the capacity of the big.Float (its precision) says nothing about the value: a float64 value held
+			// at 54, 64 or 1000 bits of precision is still that float64
+			prec := uint(rapid.SampledFrom([]int{53, 53, 54, 64, 100, 200, 1000}).Draw(t, "bfprec"))
+			val = []ev.Event{{K: ev.BigFloat, BF: new(big.Float).SetPrec(prec).SetFloat64(f)}}
 		} else {
 			val = []ev.Event{{K: ev.Float, F: f}}
 		}
